@@ -86,6 +86,7 @@ def run(pid, tier, seed, gen_case, n_quick, n_thorough, rule, nontrivial, dtypes
         cases.append(c)
     for i in range(n):
         dtype, car = dtypes[i % len(dtypes)]
+        expr.CUR_DTYPE[0] = str(dtype)                 # generators may choose scalars that are exact in this dtype only
         e, cat, car2 = gen_case(rng, car)
         cases.append((e, cat, dtype, car2 or car))
     results = []
